@@ -10,6 +10,9 @@ HERE = os.path.dirname(os.path.dirname(os.path.abspath(__file__)))
 BEGIN, END = '<!-- SEEDED-BEGIN -->', '<!-- SEEDED-END -->'
 
 OUT_OF_SCOPE = {
+    'F05-1': 'not a violation of the statement (same situation as C10-1 and C19-8): for a range whose corners share a row or a '
+             'column it moves the $ marker from one corner to the other; coordinates and labels of both reported cells stay '
+             'right, and no statement fixes marker attribution between range corners on ties',
     'C17-12': 'not a violation of the statement: INT stays value-correct for every input, only the TYPE of a whole result follows the '
               'argument (3.0 stays a float, TRUE a logical); the difference shows where CONCATENATE / LEN spell a whole float with '
               '".0", which no statement covers (under & a whole float joins as its digits since the whole-float repair)',
